@@ -178,7 +178,8 @@ def tag_is_deprecated_check(hed_schema, tag_entry, attribute_name):
     """
     issues = []
     deprecated_version = tag_entry.attributes.get(attribute_name, "")
-    library_name = tag_entry.has_attribute(HedKey.InLibrary, return_value=True)
+    # The entry's own value: on a tag has_attribute() returns the value joined with those of its ancestors.
+    library_name = tag_entry.attributes.get(HedKey.InLibrary)
     if not library_name and not hed_schema.with_standard:
         library_name = hed_schema.library
     all_versions = get_hed_versions(library_name=library_name)
